@@ -390,7 +390,7 @@ func (s *Store) mergeSegStacks(footer *Footer, splicePoint int,
 
 		childFooter, exists := footer.ChildFooters[cName]
 		if exists {
-			if childFooter.incarNum != higher.incarNum {
+			if childFooter.incarNum != newStack.incarNum {
 				// Fast child collection recreation, must not merge
 				// segments from prior incarnation.
 				childFooter = nil
